@@ -423,6 +423,20 @@ func (l *lexer) parsePostfix(x Expr) Expr {
 			if n.kind != "ident" {
 				l.fail("expected field name")
 			}
+			if id, ok := x.(*EIdent); ok && l.isOp("(") {
+				// qualified call: pkg.name(args)
+				l.next()
+				c := &ECall{Fun: id.Name + "." + n.text}
+				for !l.isOp(")") {
+					c.Args = append(c.Args, l.parseExpr(0))
+					if !l.accept(",") {
+						break
+					}
+				}
+				l.expect(")")
+				x = c
+				continue
+			}
 			x = &EField{x, n.text}
 		case l.isOp("["):
 			l.next()
